@@ -13,7 +13,11 @@ EXTRA_COQ_DIRS = ["C08"]
 RULE = ("every stage constructor of the table STAGES (one entry = how to build the real stage from counting sources + "
         "the machine that models it), every parameter value in the stated grids (size, hop in 1..6, n in 0..5, orders "
         "0..3, ratios old/new in a small set), sources: endless counter, finite counter of every length 0..8, tripwire "
-        "raising when read past the need of the k demands (and one item earlier); k demands, k = 0 and k large enough "
+        "raising when read past the need of the k demands (and one item earlier); every KIND of source object (plain "
+        "iterator, generator, object with only __iter__ handing out one shared / a fresh counting iterator - total reads "
+        "counted -, Stream, thub); counts given as int / float / Fraction / non-integers that round to them (skip, limit, "
+        "resample old/new), Stream-valued parameters (filter coefficients incl. a0, design parameters, modulo_counter, "
+        "TableLookup, resample old/new); k demands, k = 0 (also on a tripwire raising at the first read) and k large enough "
         "to pass the end of the finite sources; plus seeded 2- and 3-deep chains of stages.  The interleaved trace of "
         "R(source) / Y / Stop / Raise events seen from outside is compared with the model's trace; non-trivial = at "
         "least two outputs and at least one read.  Distinct = distinct case hash.")
@@ -137,6 +141,39 @@ def stage(coq, build, nsrc=1, tin="num", tout="num", first=False, grid=None, kin
 
 def nl(xs):
   return L.lst([L.nat(x) for x in xs])
+
+
+def numval(n, kind):
+  """The same count n given as int / float / Fraction / bool-free non-integers that round to n (round half even)."""
+  if kind == "int":
+    return n
+  if kind == "float":
+    return float(n)
+  if kind == "frac":
+    return Fraction(n)
+  if kind == "f+.4":
+    return n + .4
+  if kind == "f-.4":
+    return n - .4
+  raise KeyError(kind)
+
+
+NKINDS = ["int", "float", "frac", "f+.4", "f-.4"]
+N05T = lambda tier: [[n, kd] for n in range(0, 6) for kd in NKINDS if not (kd == "f-.4" and n == 0)]
+DYADIC = [(1, 1), (1, 2), (2, 1), (3, 2), (5, 2), (1, 4)]
+RESAMP_T = lambda tier: ([[o, a, b, "frac"] for o in range(0, 4) for (a, b) in RATIOS] +
+                         [[o, a, b, kd] for o in range(0, 4) for (a, b) in DYADIC for kd in ("int", "float")])
+RESAMP_TV = lambda tier: [[o, a, b, w] for o in range(0, 4) for (a, b) in (RATIOS[:4] if tier == "quick" else RATIOS)
+                          for w in ("old", "new", "both")]
+
+
+def _resample_tv(al, lit, s, p):
+  order, old, new, which = p
+  one = al.Stream(s[1]) * 0 + 1       # a Stream of ones fed by the counted source 1
+  two = one.copy() if which == "both" else None      # tee first, then use
+  o = one * Fraction(old) if which in ("old", "both") else Fraction(old)
+  n = two * Fraction(new) if which == "both" else (one * Fraction(new) if which == "new" else Fraction(new))
+  return al.resample(s[0], o, n, order=order)
 
 
 SIZEHOP = lambda tier: [[s, h] for s in range(1, 7) for h in range(1, 7)]
@@ -292,12 +329,12 @@ STAGES = {
                       lambda al, lit, s, p: lit.ifilter(lambda x: x % p[0] == p[1], s[0]), first=True, grid=MODS, kind="filter"),
   "it.ifilterfalse": stage(lambda p: "(GFilter %s %s)" % (L.nat(p[0]), L.nat(p[1])),
                            lambda al, lit, s, p: lit.ifilterfalse(lambda x: x % p[0] != p[1], s[0]), first=True, grid=MODS, kind="filter"),
-  "Stream.skip": stage(lambda p: "(GSkip %s)" % L.nat(p[0]), lambda al, lit, s, p: al.Stream(s[0]).skip(p[0]),
-                       tin="any", tout="same", grid=N05, kind="skip"),
+  "Stream.skip": stage(lambda p: "(GSkip %s)" % L.nat(p[0]), lambda al, lit, s, p: al.Stream(s[0]).skip(numval(p[0], p[1])),
+                       tin="any", tout="same", grid=N05T, kind="skip"),
   "it.dropwhile": stage(lambda p: "(GSkip %s)" % L.nat(p[0]), lambda al, lit, s, p: lit.dropwhile(lambda x: x < p[0], s[0]),
                         first=True, grid=N05, kind="skip"),
-  "Stream.limit": stage(lambda p: "(GLimit %s)" % L.nat(p[0]), lambda al, lit, s, p: al.Stream(s[0]).limit(p[0]),
-                        tin="any", tout="same", grid=N05, kind="limit"),
+  "Stream.limit": stage(lambda p: "(GLimit %s)" % L.nat(p[0]), lambda al, lit, s, p: al.Stream(s[0]).limit(numval(p[0], p[1])),
+                        tin="any", tout="same", grid=N05T, kind="limit"),
   "it.islice": stage(lambda p: "(GLimit %s)" % L.nat(p[0]), lambda al, lit, s, p: lit.islice(s[0], p[0]),
                      tin="any", tout="same", grid=N05, kind="limit"),
   "it.takewhile": stage(lambda p: "(GTakeWhile %s)" % L.nat(p[0]), lambda al, lit, s, p: lit.takewhile(lambda x: x < p[0], s[0]),
@@ -338,8 +375,10 @@ STAGES = {
   "stft": stage(lambda p: "STFT", _stft, grid=SIZEHOP_LE, kind="stft"),
   "stft.nohop": stage(lambda p: "STFT", _stft_nohop, grid=lambda tier: [[n, n] for n in range(1, 7)], kind="stft"),
   "resample": stage(lambda p: "(GResample %s %s %s)" % (L.nat(p[0]), L.nat(p[1]), L.nat(p[2])),
-                    lambda al, lit, s, p: al.resample(s[0], Fraction(p[1]), Fraction(p[2]), order=p[0]),
-                    grid=RESAMP, kind="resample"),
+                    lambda al, lit, s, p: al.resample(s[0], numval(p[1], p[3]), numval(p[2], p[3]), order=p[0]),
+                    grid=RESAMP_T, kind="resample"),
+  "resample.step_stream": stage(lambda p: "(GResampleTV %s %s %s)" % (L.nat(p[0]), L.nat(p[1]), L.nat(p[2])),
+                                _resample_tv, nsrc=2, first=True, grid=RESAMP_TV, kind="resample_tv"),
   # ---- combinatoric itertools wrappers: their C constructors drain the input ---------------------------
   "it.product": stage(lambda p: "GMealy", lambda al, lit, s, p: lit.product(s[0]), first=True, kind="eager", eager=True),
   "it.permutations": stage(lambda p: "GMealy", lambda al, lit, s, p: lit.permutations(s[0], 2), first=True, kind="eager", eager=True),
@@ -388,7 +427,9 @@ def expand(name, p):
   if k == "ola":
     return [("ola", [p[0], p[1], False])]
   if k == "resample":
-    return [("resample", p)]
+    return [("resample", p[:3])]
+  if k == "resample_tv":
+    return [("resample_tv", p[:3])]
   if k == "eager":
     return [("mealy", [])]
   raise KeyError(k)
@@ -424,7 +465,11 @@ def prim_need(d, i, k):
     return max(sched[:k].count(c) for c in range(n))
   if kind == "ola":
     return (k - 1) // p[1] + 1
-  if kind == "resample":
+  if kind == "resample_tv" and i == 1:
+    return k - 1
+  if kind == "resample_tv" and i > 1:
+    return 0
+  if kind in ("resample", "resample_tv"):
     order, old, new = p
     n0 = (order + 2) // 2
     idx0 = 2 * new * ((order + 1) // 2)
@@ -443,6 +488,46 @@ def py_need(case, i, k):
   return prim_need(prims[0], i, k)
 
 
+# ----------------------------------------------------------------------------- source kinds
+class SharedIterable(object):
+  """Object with only __iter__: always hands out the same counting iterator."""
+  def __init__(self, it):
+    self._it = it
+
+  def __iter__(self):
+    return self._it
+
+
+class FreshIterable(object):
+  """Object with only __iter__: a fresh counting iterator (from item 0) on every iter() call; all of them log
+  into the same trace under the same source number, so the TOTAL number of reads is what is counted."""
+  def __init__(self, *args):
+    self._args = args
+
+  def __iter__(self):
+    return Src(*self._args)
+
+
+WRAPS = ["iter", "gen", "shared", "fresh", "stream", "thub"]
+
+
+def wrap_source(al, wrap, log, j, kd, n, mk):
+  if wrap == "fresh":
+    return FreshIterable(log, j, kd, n, mk)
+  src = Src(log, j, kd, n, mk)
+  if wrap == "iter":
+    return src
+  if wrap == "gen":
+    return (x for x in src)
+  if wrap == "shared":
+    return SharedIterable(src)
+  if wrap == "stream":
+    return al.Stream(src)
+  if wrap == "thub":
+    return al.thub(src, 1)
+  raise KeyError(wrap)
+
+
 # ----------------------------------------------------------------------------- runner
 def blk_size_of(case):
   """Size of the blocks a raw source must deliver (first stage consumes blocks)."""
@@ -458,8 +543,9 @@ def run_lazy(c):
   log = []
   bs = blk_size_of(c)
   mk = (lambda i: [i] * bs) if bs else (lambda i: i)
-  srcs = [Src(log, j, kd, n, mk) for j, (kd, n) in enumerate(c["srcs"])]
+  wrap = c.get("wrap", "iter")
   try:
+    srcs = [wrap_source(al, wrap, log, j, kd, n, mk) for j, (kd, n) in enumerate(c["srcs"])]
     name, p = c["first"]
     obj = STAGES[name]["build"](al, lit, srcs, p)
     for name, p in c["rest"]:
@@ -631,6 +717,19 @@ def gen_chain(rng, depth, tier):
   raise RuntimeError("no chain")
 
 
+def wraps_for(name):
+  """Source kinds (other than the plain iterator) a stage is exercised with.  Excluded, with the reason:
+  it.tee on a non-iterator iterable returns n times the same object by its documented contract (no tee at all);
+  zcross / batched ask an exhausted source twice, which a generator-wrapped source hides from the counter."""
+  kind = STAGES[name]["kind"]
+  ws = [w for w in WRAPS if w != "iter"]
+  if kind == "tee":
+    ws = [w for w in ws if w not in ("fresh", "shared")]
+  if kind in ("zcross", "batched"):
+    ws = [w for w in ws if w != "gen"]
+  return ws
+
+
 def gen_lazy(tier, rng):
   quick = tier == "quick"
   # 1. every stage of the table, every parameter, every source
@@ -653,13 +752,28 @@ def gen_lazy(tier, rng):
       full = (not quick) or len(grid) <= 8 or (gi % 5 == 0)
       for c in cases_for([name, p], [], tier, rng, ks, ["stage:" + name, "kind:" + e["kind"], "depth=1"], full=full):
         yield c
+      # the same stage on every KIND of source object (generator, object with only __iter__ handing out one shared /
+      # a fresh counting iterator, Stream, thub): construction on a tripwire, then endless / finite / tripwire
+      if gi == 0 or (not quick and gi % 3 == 0) or (quick and gi % 7 == 0):
+        for w in wraps_for(name):
+          base = {"first": [name, p], "rest": []}
+          kk = ks[-1]
+          n = e["nsrc"]
+          need = [py_need(base, i, kk) for i in range(n)]
+          confs = [(0, [["trip", 0]] * n, "src:tripwire"), (kk, [["inf", 0]] * n, "src:endless"),
+                   (kk, [["fin", 3]] * n, "src:finite"), (kk, [["trip", min(need[i], 60)] for i in range(n)], "src:tripwire")]
+          for k, srcs, stag in confs:
+            yield {"first": [name, p], "rest": [], "srcs": srcs, "k": k, "wrap": w,
+                   "tags": ["stage:" + name, "kind:" + e["kind"], "depth=1", "wrap:" + w, stag, "k=%d" % k]}
   # 2. chains
-  nchains = 400 if quick else 4000
+  nchains = 300 if quick else 4000
   for j in range(nchains):
     depth = 2 if j % 2 == 0 else 3
     first, rest = gen_chain(rng, depth, tier)
     k = rng.choice([3, 6, 9])
-    for c in cases_for(first, rest, tier, rng, [k], ["chain", "depth=%d" % depth], full=False):
+    w = rng.choice(wraps_for(first[0]) + ["iter"])
+    for c in cases_for(first, rest, tier, rng, [k], ["chain", "depth=%d" % depth, "wrap:" + w], full=False):
+      c["wrap"] = w
       yield c
 
 
